@@ -160,4 +160,26 @@ theorem src_reorgPath_shape :
       (· == .ifc ["rewind()", "a", "rewind()", "b"] ["!", "||", "!"]), isRet []] skel_reorgPath = true ∧
     occurs isStoreWrite skel_reorgPath = false ∧ occurs isSet skel_reorgPath = false := by decide
 
+
+/-- the reorg decision follows the per-block loop directly, for every non-empty batch: the only
+successful returns are the one for an empty batch (first statement) and the last statement — no
+early `return nil` (e.g. "nothing new was stored") can skip the decision -/
+theorem src_addblocks_decision_always_reached :
+    hasInfix [isCall "m.store.AddState", isCall "m.store.AddBlock", (· == .done),
+      isCall ".SufficientlyHeavierThan", isHeavierGuard] skel_AddBlocks = true ∧
+    (skel_AddBlocks.filter (isRet ["nil"])).length = 2 ∧
+    matchPrefix [isCall "m.mu.Lock", (· == .defer), isCall "m.mu.Unlock",
+      (· == .ifc ["len()", "blocks"] ["=="]), isRet ["nil"], (· == .done)] skel_AddBlocks = true ∧
+    skel_AddBlocks.getLast? = some (.ret ["nil"]) ∧
+    (skel_AddValidatedV2Blocks.filter (isRet ["nil"])).length = 2 ∧
+    skel_AddValidatedV2Blocks.getLast? = some (.ret ["nil"]) := by decide
+
+/-- `AddValidatedV2Blocks` stores every block of the batch with its supplied state
+unconditionally (the only test in the loop is "is a v2 block"): a block already stored as a side
+block gets its complete state (`Model/ChainF.lean: addV2LoopF`, theorem `stored_states_complete`) -/
+theorem src_addv2_stores_unconditionally :
+    hasInfix [(· == .loop ["range", "blocks"] []), (· == .ifc ["blocks"] ["=="]), isRet ["E"], (· == .done),
+      isCall "m.store.AddBlock", isCall "m.store.AddState", (· == .done),
+      isCall ".SufficientlyHeavierThan", isHeavierGuard] skel_AddValidatedV2Blocks = true := by decide
+
 end Verif.C01Src
